@@ -637,6 +637,26 @@ func (x *Exec) havocLoop(st *State, fr *Frame, li *loopInfo) {
 					okUse = false
 				}
 			case *ssa.MakeClosure:
+				// a closure that only reads the captured variable cannot change the cell, however it is used
+				readOnly := false
+				if cf, ok := r.Fn.(*ssa.Function); ok {
+					for bi, bv := range r.Bindings {
+						if bv == ssa.Value(a) && bi < len(cf.FreeVars) {
+							readOnly = true
+							for _, fr2 := range *cf.FreeVars[bi].Referrers() {
+								switch u := fr2.(type) {
+								case *ssa.UnOp, *ssa.DebugRef:
+								default:
+									_ = u
+									readOnly = false
+								}
+							}
+						}
+					}
+				}
+				if readOnly {
+					break
+				}
 				for _, cr := range *r.Referrers() {
 					if _, isDefer := cr.(*ssa.Defer); !isDefer {
 						if _, isDbg := cr.(*ssa.DebugRef); !isDbg {
